@@ -859,4 +859,80 @@ example : (revert (run (Db.empty.set (0, 0) [(1, 10), (2, 20)])
       [.get 0 0 1, .forceWrite 0 0 1, .get 0 0 2, .set 0 0 2 7])).map
         (fun t' => eff t' 0 0 2) = some (some 20) := by decide
 
+/-! ### when revert cannot panic -/
+
+theorem putIn_keeps_tracked (nodes : Nodes) (n p k : Nat) (tv : TV) (a b c : Nat)
+    (h : (lookupIn nodes a b c).isSome) : (lookupIn (putIn nodes n p k tv) a b c).isSome := by
+  rw [lookupIn_putIn]
+  split
+  · rfl
+  · exact h
+
+theorem applyForcePart_ok (n p : Nat) (part : TPart) (nodes : Nodes)
+    (h : ∀ ktv ∈ part, (lookupIn nodes n p ktv.1).isSome) :
+    ∃ nodes', applyForcePart nodes n p part = some nodes' ∧
+      ∀ a b c, (lookupIn nodes a b c).isSome → (lookupIn nodes' a b c).isSome := by
+  induction part generalizing nodes with
+  | nil => exact ⟨nodes, rfl, fun _ _ _ h => h⟩
+  | cons ktv rest ih =>
+    have h0 := h ktv (List.mem_cons_self ..)
+    obtain ⟨nodes', hr, hk⟩ := ih (putIn nodes n p ktv.1 ktv.2)
+      (fun x hx => putIn_keeps_tracked _ _ _ _ _ _ _ _ (h x (List.mem_cons_of_mem _ hx)))
+    refine ⟨nodes', ?_, fun a b c hs => hk a b c (putIn_keeps_tracked _ _ _ _ _ _ _ _ hs)⟩
+    simp only [applyForcePart, replaceExisting]
+    cases hl : lookupIn nodes n p ktv.1 with
+    | none => rw [hl] at h0; cases h0
+    | some _ => exact hr
+
+theorem applyForceNode_ok (n : Nat) (parts : List (Nat × TPart)) (nodes : Nodes)
+    (h : ∀ pp ∈ parts, ∀ ktv ∈ pp.2, (lookupIn nodes n pp.1 ktv.1).isSome) :
+    ∃ nodes', applyForceNode nodes n parts = some nodes' ∧
+      ∀ a b c, (lookupIn nodes a b c).isSome → (lookupIn nodes' a b c).isSome := by
+  induction parts generalizing nodes with
+  | nil => exact ⟨nodes, rfl, fun _ _ _ h => h⟩
+  | cons pp rest ih =>
+    obtain ⟨n1, h1, k1⟩ := applyForcePart_ok n pp.1 pp.2 nodes (h pp (List.mem_cons_self ..))
+    obtain ⟨nodes', hr, hk⟩ := ih n1
+      (fun x hx y hy => k1 _ _ _ (h x (List.mem_cons_of_mem _ hx) y hy))
+    refine ⟨nodes', ?_, fun a b c hs => hk a b c (k1 a b c hs)⟩
+    simp only [applyForceNode, h1]
+    exact hr
+
+theorem applyForce_ok (force : Nodes) (nodes : Nodes)
+    (h : ∀ nn ∈ force, ∀ pp ∈ nn.2.parts, ∀ ktv ∈ pp.2, (lookupIn nodes nn.1 pp.1 ktv.1).isSome) :
+    ∃ nodes', applyForce nodes force = some nodes' := by
+  induction force generalizing nodes with
+  | nil => exact ⟨nodes, rfl⟩
+  | cons nn rest ih =>
+    obtain ⟨n1, h1, k1⟩ := applyForceNode_ok nn.1 nn.2.parts nodes (h nn (List.mem_cons_self ..))
+    obtain ⟨nodes', hr⟩ := ih n1
+      (fun x hx y hy z hz => k1 _ _ _ (h x (List.mem_cons_of_mem _ hx) y hy z hz))
+    refine ⟨nodes', ?_⟩
+    simp only [applyForce, h1]
+    exact hr
+
+/-- `revert_succeeds`: `revert_non_force_write_changes` cannot panic when every force-written
+substate is tracked in a node that was not created by the transaction -/
+theorem revert_succeeds (t : Track) (hn : IMap.Nodup t.nodes)
+    (h : ∀ nn ∈ t.force, ∀ pp ∈ nn.2.parts, ∀ ktv ∈ pp.2,
+      ∃ nd, IMap.get? t.nodes nn.1 = some nd ∧ nd.isNew = false ∧
+        (lookupIn t.nodes nn.1 pp.1 ktv.1).isSome) :
+    ∃ t', revert t = some t' := by
+  obtain ⟨nodes', hr⟩ := applyForce_ok t.force
+    ((IMap.retain t.nodes (fun _ nd => !nd.isNew)).map (fun nn => (nn.1, nn.2.revertWrites)))
+    (by
+      intro nn hnn pp hpp ktv hktv
+      obtain ⟨nd, hg, hnew, hs⟩ := h nn hnn pp hpp ktv hktv
+      rw [lookupIn_kept _ hn, hg]
+      simp only [hnew, Bool.false_eq_true, if_false]
+      cases hl : lookupIn t.nodes nn.1 pp.1 ktv.1 with
+      | none => rw [hl] at hs; cases hs
+      | some _ => rfl)
+  exact ⟨{ t with nodes := nodes', force := [] }, by simp only [revert, hr]⟩
+
+/-- non-vacuity (and the converse direction on a witness): a force write on a node created by the
+same transaction makes revert panic — the `none` of the model, the `unwrap` panic of the real code -/
+example : (revert (run Db.empty [.create 3 [(0, [(1, 1)])], .forceWrite 3 0 1])).isNone = true := by
+  decide
+
 end Radix.Track
